@@ -615,4 +615,67 @@ theorem handoff_run (fix : Bool) (c : Conn) (bits : List Bool) (s : Cfg)
       rw [e1, e2]
     · exact owed_stepWorker c s h
 
+/-! ## 5. The ghost `knows` is the last event written, unless the connection wrote itself -/
+
+def KnowsInv (c : Conn) (k0 : Obj) (s : Cfg) : Prop :=
+  s.knows c = ((s.delivered c).getLast?).getD k0
+
+theorem sendEvents_knows (c c' : Conn) (k0 : Obj) (s : Cfg) (h : KnowsInv c k0 s) :
+    KnowsInv c k0 (sendEvents s c') := by
+  unfold KnowsInv at *
+  unfold sendEvents
+  split
+  · exact h
+  · split
+    · by_cases hcc : c = c'
+      · subst hcc; simp
+      · simp [hcc, h]
+    · exact h
+
+theorem knows_stepLoop (fix : Bool) (c : Conn) (k0 : Obj) (s : Cfg)
+    (hn : ∀ op ∈ s.lops, ∀ v, op ≠ LoopOp.write c v) (h : KnowsInv c k0 s) :
+    KnowsInv c k0 (stepLoop fix s).1 := by
+  unfold stepLoop
+  split
+  · split
+    · exact h
+    · rename_i op rest hl
+      cases op with
+      | flush c' => exact sendEvents_knows c c' k0 _ h
+      | fire c' =>
+        simp only []
+        split
+        · exact sendEvents_knows c c' k0 _ h
+        · exact h
+      | write w v =>
+        have hw : c ≠ w := by
+          intro e; subst e
+          exact hn (.write c v) (by rw [hl]; exact List.mem_cons_self) v rfl
+        simpa [KnowsInv, ctrlWrite, hw] using h
+      | _ => simp only [] <;> (try split) <;> (try split) <;> exact h
+  all_goals (try split) <;> exact h
+
+theorem knows_stepWorker (c : Conn) (k0 : Obj) (s : Cfg) (h : KnowsInv c k0 s) :
+    KnowsInv c k0 (stepWorker s).1 := by
+  unfold stepWorker
+  split
+  · split
+    · exact h
+    · split <;> exact h
+  all_goals (try split) <;> exact h
+
+theorem knows_run (fix : Bool) (c : Conn) (k0 : Obj) (bits : List Bool) (s : Cfg)
+    (hn : ∀ op ∈ s.lops, ∀ v, op ≠ LoopOp.write c v) (h : KnowsInv c k0 s) :
+    KnowsInv c k0 (run fix bits s) := by
+  induction bits generalizing s with
+  | nil => exact h
+  | cons b bs ih =>
+    apply ih
+    · unfold step; split
+      · exact fun op ho => hn op (stepLoop_lops_sub fix s op ho)
+      · rw [stepWorker_lops]; exact hn
+    · unfold step; split
+      · exact knows_stepLoop fix c k0 s hn h
+      · exact knows_stepWorker c k0 s h
+
 end Hap.Race
